@@ -42,10 +42,14 @@ type recv struct {
 	stamp int64 // stamp taken after the receive
 }
 
+// group is one Subscribe call: one context, any number of channel arguments
+// (none at all, one, the same one twice, a nil one, forty).
 type group struct {
 	subs   []*sub
 	ctx    context.Context
 	cancel context.CancelFunc
+	// guarded by world.mu
+	call, ret int64
 }
 
 // sub is one subscription (one channel argument of one Subscribe call). A
@@ -107,6 +111,7 @@ type world struct {
 
 	mu     sync.Mutex
 	subs   []*sub
+	groups []*group
 	bcs    []*bc
 	closes []*closeRec
 	steps  []string
@@ -167,7 +172,11 @@ func (s *sub) rd() *sub {
 
 func (w *world) emptyGroup() *group {
 	ctx, cancel := context.WithCancel(context.Background())
-	return &group{ctx: ctx, cancel: cancel}
+	g := &group{ctx: ctx, cancel: cancel}
+	w.mu.Lock()
+	w.groups = append(w.groups, g)
+	w.mu.Unlock()
+	return g
 }
 
 // addSub adds one subscription to g: on a fresh channel (owner == nil), on the
@@ -251,6 +260,7 @@ func (w *world) subscribeGroup(g *group) {
 	chs := make([]chan<- int, len(g.subs))
 	w.mu.Lock()
 	st := w.stamp()
+	g.call = st
 	for i, s := range g.subs {
 		s.subCall = st
 		if !s.nilch {
@@ -263,6 +273,7 @@ func (w *world) subscribeGroup(g *group) {
 	}
 	w.mu.Lock()
 	st = w.stamp()
+	g.ret = st
 	for _, s := range g.subs {
 		s.subRet = st
 	}
@@ -385,10 +396,8 @@ func (w *world) open() (nb, ns, nc int) {
 			nb++
 		}
 	}
-	seen := map[*group]bool{}
-	for _, s := range w.subs {
-		if s.subCall != 0 && s.subRet == 0 && !seen[s.grp] {
-			seen[s.grp] = true
+	for _, g := range w.groups {
+		if g.call != 0 && g.ret == 0 {
 			ns++
 		}
 	}
@@ -454,6 +463,12 @@ func (w *world) quiesce() mon.QuiesceInfo {
 // stalled, what is parked where (evidence only; nothing is judged here).
 func (w *world) observe(q mon.QuiesceInfo) (openBroadcasts int) {
 	nb, ns, nc := w.open()
+	if nb == 0 && (ns+nc > 0 || q.MutexBlocked > 0) && q.OK {
+		// a reader that does not read (or a nil channel) can only hold up a Broadcast; Subscribe
+		// and Close wait for nothing but the lock, which only a Broadcast holds for long
+		d, shape := w.stuck(q)
+		w.violation("pending-while-no-broadcast-is-open/"+w.mode+"/open:"+shape, "the bubble is quiescent and no Broadcast call is in progress, but "+d+" (stalled or nil-channel subscribers may still be present: they can hold up a Broadcast, not a Subscribe or a Close); kit goroutines of this bubble: "+strings.Join(w.kitStacks(), " || "))
+	}
 	if nb > 0 && w.stalledReaderExists() {
 		w.sawBlockedOnStalled = true
 	}
@@ -517,6 +532,21 @@ func (w *world) dump() []string {
 		}
 		out = append(out, fmt.Sprintf("sub %d %s (%s) subCall=%d subRet=%d cancelAt=%d(%s) got=[%s]",
 			s.id, s.kind, chn, s.subCall, s.subRet, s.cancelAt, s.cancelBy, strings.Join(vs, " ")))
+	}
+	for _, g := range w.groups {
+		if g.call == 0 || len(g.subs) == 1 {
+			continue
+		}
+		var args []string
+		for _, s := range g.subs {
+			switch {
+			case s.nilch:
+				args = append(args, "nil")
+			default:
+				args = append(args, fmt.Sprintf("ch%d", s.rd().id))
+			}
+		}
+		out = append(out, fmt.Sprintf("Subscribe(ctx, %s) call=%d ret=%d (subs %v)", strings.Join(args, ", "), g.call, g.ret, subIDs(g.subs)))
 	}
 	for _, c := range w.closes {
 		out = append(out, fmt.Sprintf("close call=%d ret=%d parked-at-return=%v", c.call, c.ret, c.parked))
@@ -663,6 +693,14 @@ func (w *world) judge(where string) {
 		return
 	}
 	rec.Count("judged", 1)
+}
+
+func subIDs(subs []*sub) []int {
+	var out []int
+	for _, s := range subs {
+		out = append(out, s.id)
+	}
+	return out
 }
 
 func subsDesc(subs []subSnap) string {
@@ -950,6 +988,11 @@ type racePlan struct {
 	CloseAt   int       `json:"close_delay,omitempty"`
 	AtBlocked []string  `json:"at_blocked,omitempty"`
 	Order     []int     `json:"resolve_order,omitempty"`
+	// Args: one more Subscribe call (own context) with a particular argument list:
+	// nil-first | nil-middle | nil-last (two fresh prompt channels and a nil one), empty (no
+	// channel at all), long (40 fresh prompt channels); ArgsLate: made while the broadcasters run
+	Args     string `json:"args,omitempty"`
+	ArgsLate bool   `json:"args_late,omitempty"`
 }
 
 func (p *racePlan) String() string {
@@ -976,7 +1019,7 @@ func (p *racePlan) String() string {
 		}
 		ss = append(ss, d)
 	}
-	return fmt.Sprintf("b=%v subs=[%s] close=%s/%d at-blocked=%v order=%v", p.Per, strings.Join(ss, " "), p.Close, p.CloseAt, p.AtBlocked, p.Order)
+	return fmt.Sprintf("b=%v subs=[%s] close=%s/%d at-blocked=%v order=%v args=%s/%v", p.Per, strings.Join(ss, " "), p.Close, p.CloseAt, p.AtBlocked, p.Order, p.Args, p.ArgsLate)
 }
 
 func genRace(rng *mon.RNG) *racePlan {
@@ -1069,6 +1112,15 @@ func genRace(rng *mon.RNG) *racePlan {
 			p.AtBlocked = append(p.AtBlocked, a)
 		}
 	}
+	switch r := rng.Intn(100); {
+	case r < 15:
+		p.Args = rng.PickStr("nil-first", "nil-middle", "nil-last")
+	case r < 19:
+		p.Args = "empty"
+	case r < 22:
+		p.Args = "long"
+	}
+	p.ArgsLate = rng.Chance(1, 3)
 	// order in which gated subscribers are finally resolved
 	for i, sp := range p.Subs {
 		if sp.Final != "" {
@@ -1161,6 +1213,32 @@ func race(w *world, p *racePlan) {
 			w.give(s, p.Subs[i].Initial)
 		}
 	}
+	// the Subscribe call with a particular argument list
+	var argGroup *group
+	if p.Args != "" {
+		argGroup = w.emptyGroup()
+		switch p.Args {
+		case "empty":
+		case "long":
+			for k := 0; k < 40; k++ {
+				w.startReader(w.addSub(argGroup, "prompt", nil, false))
+			}
+		default:
+			pos := map[string]int{"nil-first": 0, "nil-middle": 1, "nil-last": 2}[p.Args]
+			for k := 0; k < 3; k++ {
+				if k == pos {
+					w.addSub(argGroup, "nil", nil, true)
+				} else {
+					w.startReader(w.addSub(argGroup, "prompt", nil, false))
+				}
+			}
+		}
+		groups = append(groups, argGroup)
+		if p.ArgsLate {
+			late = append(late, argGroup)
+			lateDelay = append(lateDelay, 7)
+		}
+	}
 	isLate := map[*group]bool{}
 	for _, g := range late {
 		isLate[g] = true
@@ -1229,6 +1307,10 @@ func race(w *world, p *racePlan) {
 	q := w.quiesce()
 	nbOpen := w.observe(q)
 	w.step("quiescent: %d Broadcast open, %d mutex-parked, delivered %d", nbOpen, q.MutexBlocked, w.delivered())
+	// exactly-once is due at every quiescent point, stalled readers or not: a Broadcast that has
+	// returned has handed its value to every subscription, and a freely reading subscriber
+	// that is quiescent without it will never get it
+	w.judge("first quiescent point (stalled readers may still be present)")
 	resubQuiescent()
 
 	// operations placed at the (possibly blocked) quiescent point
@@ -1292,6 +1374,7 @@ func race(w *world, p *racePlan) {
 		}
 		if any {
 			w.observe(w.quiesce())
+			w.judge("after tokens (stalled readers may still be present)")
 		}
 	}
 
@@ -1333,6 +1416,17 @@ func race(w *world, p *racePlan) {
 			w.closeAsync()
 			w.observe(w.quiesce())
 		}
+	}
+	if argGroup != nil && strings.HasPrefix(p.Args, "nil") {
+		// the Subscribe call that included a nil channel leaves (one context for all its channels)
+		nb, _, _ := w.open()
+		if nb > 0 {
+			w.departWhileBlocked = true
+		}
+		w.step("cancel the Subscribe(%s) call's context (%d Broadcast open)", p.Args, nb)
+		w.cancelSub(argGroup.subs[0], "root")
+		resolvedBy["left"] = true
+		w.observe(w.quiesce())
 	}
 	resubQuiescent()
 	// every gated reader finally reads freely, also one whose subscription has left: its
@@ -1435,8 +1529,8 @@ type lmodel struct {
 	parked   *lop
 	closeRan bool // a parked Close ran during this step
 	nextV    int
-	expRet   map[int]bool // value -> Broadcast expected to have returned
-	expSub   map[*sub]bool
+	expRet   map[int]bool    // value -> Broadcast expected to have returned
+	expCall  map[*group]bool // Subscribe call expected to have returned
 	expClose map[*closeRec]bool
 	hit11    bool
 	hit12    bool
@@ -1448,6 +1542,7 @@ type lop struct {
 	kind string // broadcast | subscribe | close
 	v    int
 	lss  []*lsub // the subscriptions of one parked Subscribe call
+	grp  *group
 	cs   []*closeRec
 }
 
@@ -1502,8 +1597,8 @@ func (m *lmodel) advance() {
 				for _, ls := range op.lss {
 					ls.live = true
 					m.subs = append(m.subs, ls)
-					m.expSub[ls.s] = true
 				}
+				m.expCall[op.grp] = true
 			case "close":
 				m.doClose()
 				m.closeRan = true
@@ -1535,7 +1630,7 @@ func (m *lmodel) blocker() *lsub {
 // recorded as an observation and the history falls back to the statement-level
 // oracle (judge / wedge), which alone decides violations.
 func lockstep(w *world, rng *mon.RNG) {
-	m := &lmodel{nextV: 1, expRet: map[int]bool{}, expSub: map[*sub]bool{}, expClose: map[*closeRec]bool{}}
+	m := &lmodel{nextV: 1, expRet: map[int]bool{}, expCall: map[*group]bool{}, expClose: map[*closeRec]bool{}}
 	var all []*lsub
 	agree := true
 	how := "resumed"
@@ -1554,30 +1649,28 @@ func lockstep(w *world, rng *mon.RNG) {
 		return ls
 	}
 	// subscribeCall performs one Subscribe call for the subscriptions lss (one group)
-	subscribeCall := func(lss []*lsub, desc string) {
+	subscribeCall := func(g *group, lss []*lsub, desc string) {
 		switch {
 		case m.closed:
-			for _, ls := range lss {
-				m.expSub[ls.s] = true // silently dropped
-			}
+			m.expCall[g] = true // silently dropped
 			w.step("subscribe %s (closed: dropped)", desc)
 		case m.cur == nil:
 			for _, ls := range lss {
 				ls.live = true
 				m.subs = append(m.subs, ls)
-				m.expSub[ls.s] = true
 			}
+			m.expCall[g] = true
 			w.step("subscribe %s", desc)
 		default:
-			m.parked = &lop{kind: "subscribe", lss: lss}
+			m.parked = &lop{kind: "subscribe", lss: lss, grp: g}
 			rec.Count("lockstep.parked_subscribe", 1)
 			w.step("subscribe %s (parks behind the blocked Broadcast)", desc)
 		}
-		go w.subscribeGroup(lss[0].s.grp)
+		go w.subscribeGroup(g)
 	}
 	subscribe := func(gatedSub bool) {
 		ls := newSub(gatedSub)
-		subscribeCall([]*lsub{ls}, fmt.Sprintf("%d gated=%v", ls.s.id, gatedSub))
+		subscribeCall(ls.s.grp, []*lsub{ls}, fmt.Sprintf("%d gated=%v", ls.s.id, gatedSub))
 	}
 	// newAlias: one more subscription on the channel of ls (whose reader reads freely)
 	newAlias := func(g *group, ls *lsub, kind string) *lsub {
@@ -1609,7 +1702,7 @@ func lockstep(w *world, rng *mon.RNG) {
 			kind = "resub-quiescent"
 		}
 		a := newAlias(w.emptyGroup(), ls, kind)
-		subscribeCall([]*lsub{a}, fmt.Sprintf("%d = the channel of sub %d again (%s)", a.s.id, ls.s.rd().id, kind))
+		subscribeCall(a.s.grp, []*lsub{a}, fmt.Sprintf("%d = the channel of sub %d again (%s)", a.s.id, ls.s.rd().id, kind))
 		return true
 	}
 	// subscribeVariadic: one Subscribe call with a fresh channel twice and possibly a channel
@@ -1629,7 +1722,48 @@ func lockstep(w *world, rng *mon.RNG) {
 				desc += fmt.Sprintf(" and %d = the channel of sub %d", lss[2].s.id, o.s.rd().id)
 			}
 		}
-		subscribeCall(lss, desc)
+		subscribeCall(g, lss, desc)
+	}
+	// subscribeArgs: one Subscribe call with a particular argument list: a nil channel in first,
+	// middle or last position among fresh prompt channels, no channel at all, or forty channels.
+	// A nil channel is a subscriber that never reads: the reference treats it as a gated reader
+	// that is never given a token and can only leave.
+	longDone := false
+	subscribeArgs := func() {
+		g := w.emptyGroup()
+		var lss []*lsub
+		fresh := func() {
+			s := w.addSub(g, "prompt", nil, false)
+			w.startReader(s)
+			ls := &lsub{s: s, inf: true}
+			all = append(all, ls)
+			lss = append(lss, ls)
+		}
+		shape := rng.PickStr("nil-first", "nil-middle", "nil-last", "nil-first", "nil-middle", "nil-last", "empty", "long")
+		if shape == "long" && longDone {
+			shape = "empty"
+		}
+		switch shape {
+		case "empty":
+		case "long":
+			longDone = true
+			for k := 0; k < 40; k++ {
+				fresh()
+			}
+		default:
+			pos := map[string]int{"nil-first": 0, "nil-middle": 1, "nil-last": 2}[shape]
+			for k := 0; k < 3; k++ {
+				if k == pos {
+					ls := &lsub{s: w.addSub(g, "nil", nil, true)}
+					all = append(all, ls)
+					lss = append(lss, ls)
+				} else {
+					fresh()
+				}
+			}
+		}
+		rec.Count("lockstep.subscribe_args_"+shape, 1)
+		subscribeCall(g, lss, fmt.Sprintf("%v = one call, argument list %s", subIDs(g.subs), shape))
 	}
 	// burst: n sequential Broadcast calls from one goroutine; the burst ends
 	// with the first call that the reference expects to block.
@@ -1820,9 +1954,9 @@ func lockstep(w *world, rng *mon.RNG) {
 				return fmt.Sprintf("Broadcast(value %d) returned=%v, reference says %v", b.v-1, b.ret != 0, m.expRet[b.v])
 			}
 		}
-		for _, ls := range all {
-			if (ls.s.subRet != 0) != m.expSub[ls.s] {
-				return fmt.Sprintf("Subscribe of sub %d returned=%v, reference says %v", ls.s.id, ls.s.subRet != 0, m.expSub[ls.s])
+		for _, g := range w.groups {
+			if g.call != 0 && (g.ret != 0) != m.expCall[g] {
+				return fmt.Sprintf("Subscribe of subs %v (call stamp %d) returned=%v, reference says %v", subIDs(g.subs), g.call, g.ret != 0, m.expCall[g])
 			}
 		}
 		for _, c := range w.closes {
@@ -1856,7 +1990,7 @@ func lockstep(w *world, rng *mon.RNG) {
 	gatedLive := func() []*lsub {
 		var out []*lsub
 		for _, ls := range m.subs {
-			if ls.live && !ls.inf {
+			if ls.live && !ls.inf && !ls.s.nilch {
 				out = append(out, ls)
 			}
 		}
@@ -1897,8 +2031,10 @@ func lockstep(w *world, rng *mon.RNG) {
 				if !subscribeSame() {
 					subscribe(false)
 				}
-			case r < 72:
+			case r < 71:
 				subscribeVariadic()
+			case r < 73:
+				subscribeArgs()
 			case r < 75:
 				// cancel a freely read subscription and subscribe its channel again at once,
 				// without waiting for the old forwarder
@@ -1907,7 +2043,7 @@ func lockstep(w *world, rng *mon.RNG) {
 					cancel(ls)
 					if agree {
 						a := newAlias(w.emptyGroup(), ls, "resub-now")
-						subscribeCall([]*lsub{a}, fmt.Sprintf("%d = the channel of sub %d again, at once", a.s.id, ls.s.rd().id))
+						subscribeCall(a.s.grp, []*lsub{a}, fmt.Sprintf("%d = the channel of sub %d again, at once", a.s.id, ls.s.rd().id))
 					}
 				} else {
 					subscribe(false)
@@ -1933,11 +2069,22 @@ func lockstep(w *world, rng *mon.RNG) {
 			bl := m.blocker()
 			canPark := m.parked == nil
 			switch {
+			case bl.s.nilch && r < 35:
+				// a Broadcast blocked on a nil-channel subscriber: it can only leave
+				cancel(bl)
+			case bl.s.nilch && r < 60:
+				if gl := gatedLive(); len(gl) > 0 {
+					tokens(gl[rng.Intn(len(gl))], rng.PickInt(1, 2, 4))
+				} else if ls := liveSubs(); len(ls) > 0 {
+					cancel(ls[rng.Intn(len(ls))])
+				}
 			case r < 22:
 				tokens(bl, rng.PickInt(1, 1, 2, 3, 12, 13))
 			case r < 32:
 				gl := gatedLive()
 				tokens(gl[rng.Intn(len(gl))], rng.PickInt(1, 2, 4))
+			case r == 86 && canPark:
+				subscribeArgs()
 			case r < 44:
 				cancel(bl)
 			case r < 52:
@@ -1961,13 +2108,15 @@ func lockstep(w *world, rng *mon.RNG) {
 					cancel(ls)
 					if agree {
 						a := newAlias(w.emptyGroup(), ls, "resub-now")
-						subscribeCall([]*lsub{a}, fmt.Sprintf("%d = the channel of sub %d again, at once", a.s.id, ls.s.rd().id))
+						subscribeCall(a.s.grp, []*lsub{a}, fmt.Sprintf("%d = the channel of sub %d again, at once", a.s.id, ls.s.rd().id))
 					}
 				} else {
 					subscribe(false)
 				}
 			case canPark:
 				closeOp()
+			case bl.s.nilch:
+				cancel(bl)
 			default:
 				tokens(bl, rng.PickInt(1, 2, 12))
 			}
@@ -1985,6 +2134,20 @@ func lockstep(w *world, rng *mon.RNG) {
 	// completes, so what the other gated readers still get depends on the order)
 	for _, ls := range all {
 		if ls.inf {
+			continue
+		}
+		if ls.s.nilch {
+			// a nil-channel subscriber can only leave
+			if w.cancelled(ls.s) {
+				continue
+			}
+			if agree && !w.violated() {
+				cancel(ls)
+				settle()
+			} else {
+				w.step("cancel sub %d (nil channel)", ls.s.id)
+				w.cancelSub(ls.s, "root")
+			}
 			continue
 		}
 		if agree && !w.violated() {
@@ -2015,6 +2178,8 @@ func TestCheck(t *testing.T) {
 		"hist.same_channel_two_live_subscriptions", "hist.variadic_call_with_duplicate_channel",
 		"hist.channel_resubscribed_at_once_after_cancel", "hist.channel_resubscribed_after_quiescence",
 		"hist.nil_channel_subscriber", "shared_channel_copies_demanded", "zero_value_deliveries",
+		"subscribe_calls.empty_list", "subscribe_calls.forty_channels", "subscribe_calls.nil_first", "subscribe_calls.nil_middle", "subscribe_calls.nil_last",
+		"subscribe_calls.channels_listed_after_a_nil_one", "hist.close_returned_while_nil_channel_subscriber_live",
 	})
 	total := mon.Pick(3000, 150000)
 	rec.Planned(total)
@@ -2076,7 +2241,34 @@ func runCase(t *testing.T, idx int, mode string) {
 	}
 	lateRecv := 0
 	zeroDelivered := 0
-	var sameLive, variadicDup, resubNow, resubQuiescent, nilSub bool
+	var sameLive, variadicDup, resubNow, resubQuiescent, nilSub, closeWithNil bool
+	for _, g := range w.groups {
+		if g.ret == 0 {
+			continue
+		}
+		switch n := len(g.subs); {
+		case n == 0:
+			rec.Count("subscribe_calls.empty_list", 1)
+		case n >= 40:
+			rec.Count("subscribe_calls.forty_channels", 1)
+		case n > 1:
+			for i, s := range g.subs {
+				if s.nilch {
+					pos := "middle"
+					if i == 0 {
+						pos = "first"
+					} else if i == n-1 {
+						pos = "last"
+					}
+					rec.Count("subscribe_calls.nil_"+pos, 1)
+					// a channel listed after the nil one, entitled to values
+					if i < n-1 {
+						rec.Count("subscribe_calls.channels_listed_after_a_nil_one", n-1-i)
+					}
+				}
+			}
+		}
+	}
 	for i, s := range w.subs {
 		if s.subCall != 0 {
 			switch s.kind {
@@ -2086,6 +2278,11 @@ func runCase(t *testing.T, idx int, mode string) {
 				resubQuiescent = true
 			case "nil":
 				nilSub = true
+				for _, c := range w.closes {
+					if c.ret != 0 && c.call > s.subRet && s.subRet != 0 && (s.cancelAt == 0 || c.ret < s.cancelAt) {
+						closeWithNil = true
+					}
+				}
 			}
 		}
 		for _, o := range w.subs[:i] {
@@ -2159,6 +2356,7 @@ func runCase(t *testing.T, idx int, mode string) {
 	flag("hist.channel_resubscribed_at_once_after_cancel", resubNow)
 	flag("hist.channel_resubscribed_after_quiescence", resubQuiescent)
 	flag("hist.nil_channel_subscriber", nilSub)
+	flag("hist.close_returned_while_nil_channel_subscriber_live", closeWithNil)
 	flag("hist."+mode, true)
 	rec.Case(idx, desc+" "+strings.Join(steps, ";"), deliveries > 0)
 	if rec.WantSample() && deliveries > 0 && idx%7 == 0 {
